@@ -7,7 +7,9 @@ def harnesses(tier, findings):
           rc.start_flags(H, VERIF, 1), rc.start_flags(H, VERIF, 2),
           ] + [rc.api(H, VERIF, 3, 2, 2, 6, 900, name="api_fault_k%d_at%d_%s" % (k, at, "abort" if ab else "stop"),
                      excludes=["FIX_EARLY=1", "CL_MODE=0", "FIX_N=2", "FAULT_KIND=%d" % k, "FAULT_AT=%d" % at, "FIX_ABORT=%d" % ab])
-               for (k, at, ab) in ((1, 0, 0), (1, 1, 0), (2, 0, 0), (1, 1, 1))]
+               for (k, at, ab) in ((1, 0, 0), (1, 1, 0), (2, 0, 0), (1, 1, 1))] + [
+          # storage fault in the SECOND of three acquisitions with a 3-frame ring: the failed sink's backlog straddles the wrap point
+          rc.api(H, VERIF, 3, 3, 2, 3, 900, name="api_fault_k2_acq1_wrap", excludes=["FIX_EARLY=1", "CL_MODE=0", "FIX_N=2", "FAULT_KIND=2", "FAULT_AT=0", "FIX_ABORT=0", "FAULT_ACQ=1"])]
     if tier == "thorough":
         hs += [rc.source_unit(H, VERIF, 2, 3, 2, envmax=8, timeout=3000, tag="b"), rc.sink_unit(H, VERIF, 1, 2, 2, polls=2, envmax=5, tag="k2", timeout=3500)]
     # sink died while the source may be blocked on a full ring
